@@ -577,7 +577,7 @@ def run_length_specs(pairs=None):
     return out
 
 
-NAME_TABLE_TOTALS = [(255, 5), (256, 5), (257, 5), (256, 40), (300, 40), (65535, 300), (65536, 300), (65537, 300), (70000, 260)]
+NAME_TABLE_TOTALS = [(255, 5), (256, 5), (257, 5), (256, 40), (300, 40), (400, 100), (65535, 300), (65536, 300), (65537, 300), (66000, 300), (70000, 260)]
 
 
 def name_table_specs(totals=None):
@@ -592,7 +592,22 @@ def name_table_specs(totals=None):
             if i == n // 2:
                 nm = "zz" + nm[2:] + "z" * (total - per * n)
             vs.append({"ident": "V%d" % i, "disc": str(i * 2 if i > n // 2 else i), "rename": nm, "rename_raw": False})
-        out.append({"repr": "u16", "vis": "pub", "ident": "E", "enum_attrs": [], "variants": vs})
+        # (400, 100) and (66000, 300) divide evenly: all names equally long
+        out.append({"repr": "u8" if n <= 100 else "u16", "vis": "pub", "ident": "E", "enum_attrs": [], "variants": vs})
+    return out
+
+
+def tied_run_specs():
+    """Several runs tied for the greatest length, a shorter run first (code that singles out "the" longest run)."""
+    out = []
+    for lens in ([4, 16, 16], [1, 16, 16, 16], [3, 17, 5, 17], [16, 16], [2, 64, 64], [5, 3, 5, 3, 5]):
+        for r, base in (("i16", -20), ("u8", 0)):
+            vals, cur = [], base
+            for ln in lens:
+                vals.extend(range(cur, cur + ln))
+                cur += ln + 7
+            if vals[-1] <= M.repr_domain(r)[1]:
+                out.append(scope_spec(r, vals))
     return out
 
 
